@@ -164,6 +164,8 @@ class Engine:
         raise E2Error('function %s not found' % mangled)
 
     def spec_of(self, mangled):
+        v = getattr(self, 'view', None)
+        if v and (mangled + '~' + v) in self.db.funcs: return self.db.funcs[mangled + '~' + v]
         return self.db.funcs.get(mangled)
 
     def uf(self, name, *sorts):
@@ -870,6 +872,10 @@ class Engine:
             if gn in st.ghost: cs.ghost[gn] = st.ghost[gn]     # ghost arguments are passed by name
         for p in f.params:
             if p[1] == 'fun' and isinstance(env.get(p[0]), Fun): pass
+        gstate = [gn for gt, gn in sp.ghost_state]
+        for gn in gstate:
+            if gn not in st.env: raise E2Error('call %s: ghost state %s is not declared in the caller' % (f.qual, gn))
+            cs.env[gn] = st.env[gn]
         who = 'call %s: ' % f.qual
         for cl in sp.requires:
             if cl.engines and 'E2' not in cl.engines: continue
@@ -894,9 +900,23 @@ class Engine:
         if f.ret != 'void':
             res = self.fresh_val(f.ret, 'ret.' + f.name, cs)
             cs.env['result'] = res
+        if sp.options.get('pure') and res is not None and not isinstance(res, (Seq, Rec)):
+            self.check_pure(f)
+            sc = []
+            for (pn, pt, br) in f.params:
+                v = env[pn]
+                if isinstance(v, Fun): sc.append(z3.RealVal(abs(hash(v.uf)) % 1000003) if False else None); continue
+                if isinstance(v, (Seq, Rec, Str)): raise E2Error('pure summary of %s: non-scalar parameter %s' % (f.qual, pn))
+                sc.append(self.to_real(v) if not z3.is_bool(v) else z3.If(v, z3.RealVal(1), z3.RealVal(0)))
+            funs = [env[pn].uf for (pn, pt, br) in f.params if isinstance(env[pn], Fun)]
+            cbn = '_'.join(((self.cur.callbacks.get(pn, {}) or {}).get('uf') or u) for u, pn in zip(funs, [p[0] for p in f.params if isinstance(env[p[0]], Fun)])) if False else '_'.join(funs)
+            args = [a for a in sc if a is not None]
+            u = self.uf('pure_%s_%s' % (f.name, cbn), *([z3.RealSort()] * len(args) + [res.sort()]))
+            cs.assume(res == u(*args))
         for cl in sp.ensures:
             if cl.engines and 'E2' not in cl.engines: continue
             self.assume_clause(cl.expr, cs)
+        for gn in gstate: st.env[gn] = cs.env[gn]
         st.pc = cs.pc; st.pc_int = cs.pc_int
         for nm, lv in back:
             if cs.env[nm] is not env[nm]:
@@ -904,6 +924,14 @@ class Engine:
         if ctor_self is not None:
             return cs.env.get('self')
         return res
+
+    def check_pure(self, f):
+        """syntactic purity: no namespace-scope or static variable is read or written (R16)"""
+        if f.rules.get('R16'):
+            raise E2Error('%s is declared pure but touches namespace-scope/static variables' % f.qual)
+        for s_ in walk_stmts(f.body):
+            if s_.k == 'decl' and getattr(s_, 'static', False):
+                raise E2Error('%s is declared pure but has a static local' % f.qual)
 
     def assign_nocheck(self, lv, val, st):
         n = len(self.obligations)
@@ -1078,8 +1106,8 @@ class Engine:
             bound['result'] = res
             for cl in cb['ensures']:
                 st.assume(self.sv(cl.expr, st, bound))
-            if 'evals' in st.ghost:
-                st.ghost = dict(st.ghost); st.ghost['evals'] = st.ghost['evals'] + 1
+            if 'evals' in st.env and self.cur is not None and any(gn == 'evals' for gt, gn in self.cur.ghost_state):
+                st.env['evals'] = st.env['evals'] + 1
         return res
 
     def e_lambda(self, e, st):
@@ -1110,6 +1138,15 @@ class Engine:
         p, rv = good[0]
         st.pc = p.pc; st.pc_int = p.pc_int
         return rv
+
+
+def walk_stmts(ss):
+    for s_ in ss:
+        yield s_
+        for attr in ('then', 'els', 'body', 'step'):
+            v = getattr(s_, attr, None)
+            if isinstance(v, list):
+                for x in walk_stmts(v): yield x
 
 
 def subst_ir(e, m):
@@ -1442,6 +1479,8 @@ class Verifier(Engine):
     # ------------------------------------------------------------ function verification
     def verify_function(self, key):
         fs = self.db.funcs[key]
+        self.view = key.split('~')[1] if '~' in key else None
+        key = key.split('~')[0]
         f = self.func(key)
         modes = ['accept', 'reject'] if fs.exits_iff is not None else ['accept']
         info = {'function': f.qual, 'mangled': key, 'modes': {}, 'rules': f.rules}
@@ -1450,7 +1489,8 @@ class Verifier(Engine):
         self.vacuity = getattr(self, 'vacuity', [])
         for mode in modes:
             self.mode = mode; self.cur = fs; self.curf = f
-            self.prefix = 'E2:%s:%s:' % (f.qual, mode) if len(modes) > 1 else 'E2:%s:' % f.qual
+            qn = f.qual + ('~' + self.view if self.view else '')
+            self.prefix = 'E2:%s:%s:' % (qn, mode) if len(modes) > 1 else 'E2:%s:' % qn
             self.vartypes = {}; self.loops_seen = set(); self.exit_sites = 0
             st = State()
             is_ctor = key.find('C1E') > 0 and f.self_rec == f.name
@@ -1466,6 +1506,8 @@ class Verifier(Engine):
             for gt, gn in fs.ghosts:
                 t = {'real': 'double', 'double': 'double', 'int': 'int', 'uint': 'uint', 'bool': 'bool', 'long': 'long'}.get(gt, gt)
                 st.ghost[gn] = self.fresh_val(t, 'g.' + gn, st, constrain=(t != 'int'))
+            for gt, gn in fs.ghost_state:
+                st.env[gn] = self.fresh_val({'real': 'double'}.get(gt, gt), 'gs.' + gn, st, constrain=False)
             for cl in fs.requires:
                 if cl.engines and 'E2' not in cl.engines: continue
                 self.assume_clause(cl.expr, st)
@@ -1589,3 +1631,70 @@ class Verifier(Engine):
                 s.add(h)
             if s.check() == z3.unsat: bad.append(prefix)
         return bad
+
+    # ------------------------------------------------------------ relational goals (two runs of one function)
+    def verify_relational(self, name, args=()):
+        rel = self.db.relations[name]
+        key = rel.key
+        self.view = key.split('~')[1] if '~' in key else None
+        mk = key.split('~')[0]
+        fs = self.db.funcs.get(key) or self.db.funcs.get(mk) or SP.FuncSpec(mk)
+        f = self.func(mk)
+        self.mode = 'accept'; self.cur = fs; self.curf = f
+        self.prefix = 'E2:rel:%s:' % name
+        self.vartypes = {}; self.loops_seen = set(); self.exit_sites = 0
+        self.static_failures = getattr(self, 'static_failures', []); self.bounded = getattr(self, 'bounded', []); self.vacuity = getattr(self, 'vacuity', [])
+        st = State()
+        envs = []
+        for run in (1, 2):
+            env = {}
+            if f.self_rec and f.self_rec != 'lambda':
+                env['self'] = self.fresh_val('rec:' + f.self_rec, 'self%d' % run, st)
+            for pn, pt, br in f.params:
+                if run == 2 and pn in rel.share: env[pn] = envs[0][pn]
+                else: env[pn] = self.fresh_val(pt, '%s_%d' % (pn, run), st)
+                self.vartypes[pn] = pt
+            envs.append(env)
+        for gt, gn in fs.ghosts + rel.ghosts:
+            t = {'real': 'double'}.get(gt, gt)
+            st.ghost[gn] = self.fresh_val(t, 'g.' + gn, st, constrain=(t != 'int'))
+        if f.self_rec and 'self' in rel.share:
+            envs[1]['self'] = envs[0]['self']
+        for fld in [x[5:] for x in rel.share if x.startswith('self.')]:
+            b = envs[1]['self']; nf = dict(b.f); nf[fld] = envs[0]['self'].f[fld]
+            envs[1]['self'] = Rec(b.name, nf)
+        for gt, gn in fs.ghost_state:
+            for env in envs: env[gn] = self.fresh_val({'real': 'double'}.get(gt, gt), 'gs.' + gn, st, constrain=False)
+        def combined(e1, e2):
+            c = dict(e1)
+            for k, v in e2.items(): c[k + '2'] = v
+            return c
+        for env in envs:
+            st.env = env
+            for cl in fs.requires:
+                if cl.engines and 'E2' not in cl.engines: continue
+                self.assume_clause(cl.expr, st)
+            if fs.exits_iff is not None:
+                st.assume(z3.Not(self.sv(fs.exits_iff.expr, st)))
+        entry = combined(envs[0], envs[1])
+        st.env = entry
+        for cl in rel.requires: self.assume_clause(cl.expr, st)
+        for u in rel.uses: self.use_lemma(u, st)
+        self.vacuity.append((self.prefix, list(st.pc)))
+        st.env = dict(envs[0]); st.old = dict(envs[0])
+        self.entry_dec = None
+        n1 = 0; n2 = 0
+        for p1, s1, rv1 in self.exec_block(f.body, st):
+            if s1 == 'exit': continue
+            n1 += 1
+            s2 = p1.clone(); s2.env = dict(envs[1]); s2.old = dict(envs[1]); s2.scope = None
+            for k, v in p1.env.items():
+                if k.startswith('::'): s2.env[k] = v
+            for p2, st2, rv2 in self.exec_block(f.body, s2):
+                if st2 == 'exit': continue
+                n2 += 1
+                c = p2.clone(); c.env = combined(p1.env, p2.env); c.old = entry; c.scope = None
+                if rv1 is not None: c.env['result'] = rv1
+                if rv2 is not None: c.env['result2'] = rv2
+                for cl in rel.ensures: self.check_clause(cl, c, 'ensures')
+        return {'relation': name, 'function': f.qual + ' (two runs)', 'paths': [n1, n2], 'rules': f.rules}
